@@ -221,13 +221,26 @@ def r1_all(ctx):
             ctx.missing(P, "C10.R2", "storage futures", "only %d future-returning storage call sites (floor 30)" % n_fut)
 
 
-RULES = [r1_all, r3, r4, r5]
+def r6(ctx):
+    """a failed flush must leave the acknowledged state recoverable: within one header rewrite the
+    header is written before the log is truncated (and a trace-clearing flush truncates between its two
+    header writes) — with the truncate first, a failed header write would leave the old header and an
+    empty log, losing every append acknowledged since the previous flush (the clauses of C02.R5)"""
+    from . import c02
+    before = len(ctx.insts)
+    c02.r5(ctx)
+    for i in ctx.insts[before:]:
+        i.prop, i.rule = P, "C10.R6"
+        i.key = i.key.replace("C02|C02.R5", "C10|C10.R6")
+
+
+RULES = [r1_all, r3, r4, r5, r6]
 CONTROLS = ["c10_result_dropped", "c10_future_not_awaited", "c10_continues_after_error"]
 
 EXPLANATION = ("C10 (a storage error surfaces and is recoverable): decides the error discipline of every call site of a function from which a RandomAccess "
                "operation is call-graph reachable — no Result of such a call is dropped or discarded (R1), every storage future is polled in the same body or "
                "handed to the caller (R2), the error edge of every ?-checked storage call in the mutating / reading entry points reaches Return without any "
                "further storage operation, in-memory commit or event (R3), in-memory commits are dominated by the successful oplog entry write (R4 = C02.R1/R2), "
-               "and every RandomAccess error is converted by map_random_access_err or an explicit match, each arm building a HypercoreError (R5).")
+               "and every RandomAccess error is converted by map_random_access_err or an explicit match, each arm building a HypercoreError (R5). R6: within a flush the header is written before the log is truncated, so that a failed header write loses nothing that was acknowledged (shared with C02.R5).")
 NOT_DECIDED = "that reopening after the failure yields the before-or-after state (C02's undecided part); hangs or panics inside a backend; errors injected during Oplog::open parsing."
 ASSUMPTIONS = ["a backend reports failure through the RandomAccessError return value"]
